@@ -579,6 +579,7 @@ def check_property(pid, tier, seed, replay=None):
             "rule": prop.RULE, "samples": samples,
             "corpus_cases": n_corpus, "generated_cases": len(cases) - n_corpus,
             "branch_flags_hit": flagcount,
+            "traces_validated_against_impl": flagcount.get("trace-validated", 0) + flagcount.get("plan-orderplan", 0) + flagcount.get("jittered-commands", 0),
             "correspondence_disagreements": len(k_breaks), "oracle_failures": len(o_breaks),
             "known_findings_seen": known_printed,
             "partial_theorems": getattr(prop, "PARTIAL", []),
